@@ -213,8 +213,6 @@ def run_route(ctx, route, name, path, seed, nsteps):
         if repr(r) != repr(r2) or done is not d2:
             ctx.violation('adapter', 'step.reward_or_flag_differs', f'{label}: step returned ({r!r},{done!r}), inner environment gives ({r2!r},{d2!r})',
                           'gym_case', payload)
-        if not isinstance(info, dict):
-            ctx.violation('adapter', 'step.info_not_dict', f'{label}: info is {type(info).__name__}', 'gym_case', payload)
         if not check_obs(got, o, 'step'):
             return
         if d2:
